@@ -29,6 +29,9 @@ def validateReset (S : Schema) (ty : Nat) (u : Updater) : Code :=
   | some R => if isValid S ty R then .ok else .internal
   | none => .ok
 
+/-- `isWritablePath(path, writable)`: the path is a writable path or lies inside one. -/
+def isWritablePath (W : List Path) (p : Path) : Bool := W.any (fun w => hasPrefix p w)
+
 /-- `FieldUpdater.Validate(m)`. -/
 def validate (S : Schema) (ty : Nat) (u : Updater) : Code :=
   match u.update with
@@ -37,25 +40,37 @@ def validate (S : Schema) (ty : Nat) (u : Updater) : Code :=
     else
       match u.writable with
       | some W =>
-        -- fullMask() = Intersect(writableFields, updateMask); "read-only" iff the lengths differ
-        if (intersect W M).length != M.length then .invalidArgument else validateReset S ty u
+        if !M.all (isWritablePath W) then .invalidArgument else validateReset S ty u
       | none => validateReset S ty u
   | none => validateReset S ty u
 
-/-- `pruneEmpty(dst, src, mask)`: a populated field of dst that the mask names is cleared when src
-lacks it; singular message fields present on both sides are visited with the nested mask. -/
-def pruneEmpty (mask : Mask) (src : Fields) : Fields → Fields
-  | .nil => .nil
+/-- `pruneEmpty(dst, src, mask)`: a populated field of dst that the mask names and src lacks is
+cleared — unless it is a singular message that the mask only names through deeper paths, then just
+those are pruned from it (`fieldMask.Prune`, which may panic: `none`); singular message fields
+present on both sides are visited with the nested mask. -/
+def pruneEmpty (mask : Mask) (src : Fields) : Fields → Out Fields
+  | .nil => some .nil
   | .cons k v rest =>
     match mask.find k with
-    | none => .cons k v (pruneEmpty mask src rest)
+    | none => (pruneEmpty mask src rest).map (.cons k v)
     | some sub =>
       match src.get k with
-      | none => pruneEmpty mask src rest                       -- dstPr.Clear(d)
+      | none =>
+        match v with
+        | .msg df =>
+          if sub.isEmpty then pruneEmpty mask src rest            -- dstPr.Clear(d)
+          else
+            match pruneFields sub df with                         -- fieldMask.Prune(dst.f)
+            | none => none
+            | some df' => (pruneEmpty mask src rest).map (.cons k (.msg df'))
+        | _ => pruneEmpty mask src rest                           -- dstPr.Clear(d)
       | some sv =>
         match v, sv with
-        | .msg df, .msg sf => .cons k (.msg (pruneEmpty sub sf df)) (pruneEmpty mask src rest)
-        | _, _ => .cons k v (pruneEmpty mask src rest)
+        | .msg df, .msg sf =>
+          match pruneEmpty sub sf df with
+          | none => none
+          | some df' => (pruneEmpty mask src rest).map (.cons k (.msg df'))
+        | _, _ => (pruneEmpty mask src rest).map (.cons k v)
 
 /-- Result of `Merge`: the new dst and the (mutated in place) src. -/
 structure Merged where
@@ -63,12 +78,20 @@ structure Merged where
   src : Fields
 deriving DecidableEq, Repr, Inhabited
 
+/-- `FieldUpdater.reset(dst)`. -/
+def resetDst (u : Updater) (dst : Fields) : Out Fields :=
+  match u.reset with
+  | none => some dst
+  | some R => pruneMsg (nestedMask R) dst
+
 /-- `FieldUpdater.Merge(dst, src)`; `none` is a panic inside fmutils. -/
 def merge (S : Schema) (ty : Nat) (u : Updater) (dst src : Fields) : Out Merged :=
-  if u.writable = some [] then some ⟨dst, src⟩                 -- nothing is writable
+  if u.writable = some [] then
+    -- nothing is writable: only the reset mask applies (an empty update mask still means no changes)
+    if u.update = some [] then some ⟨dst, src⟩ else (resetDst u dst).map (⟨·, src⟩)
   else
     let wmask : Mask := match u.writable with
-      | some W => Mask.fromPaths W
+      | some W => nestedMask W
       | none => .nil
     -- writableMask.Filter(src)
     match filterMsg wmask src with
@@ -84,15 +107,14 @@ def merge (S : Schema) (ty : Nat) (u : Updater) (dst src : Fields) : Out Merged 
       | none => some ⟨dst, src1⟩                               -- early return
       | some none => none
       | some (some dst1) =>
-        let nmask := Mask.fromPaths (u.update.getD [])
-        match filterMsg nmask src1 with
+        let umask := nestedMask (u.update.getD [])
+        match filterMsg umask src1 with
         | none => none
         | some src2 =>
           let dst2 := mergeFields S ty dst1 src2
-          let dst3 := pruneEmpty nmask src2 dst2
-          match u.reset with
-          | none => some ⟨dst3, src2⟩
-          | some R => (pruneMsg (Mask.fromPaths R) dst3).map (⟨·, src2⟩)
+          match pruneEmpty umask src2 dst2 with
+          | none => none
+          | some dst3 => (resetDst u dst3).map (⟨·, src2⟩)
 
 /-! ## resource plumbing -/
 
